@@ -38,6 +38,14 @@ pub struct RunOut {
     pub c23: Option<String>,
     pub quiet: bool,
     pub stuck_epilogue: bool,
+    /// a node appended to a segment that the committed metadata (the Raft leader's applied
+    /// state) had already sealed while the node's own applied state still showed it open
+    #[serde(default)]
+    pub stale_owner_write: bool,
+    /// (segment, entries written on its owner, sealed count) for segments holding more
+    /// entries than the count their sealing recorded
+    #[serde(default)]
+    pub overfull: Vec<(u64, u64, u64)>,
 }
 
 const TOPIC: &str = "t";
@@ -90,8 +98,30 @@ pub fn run_item(dir: &std::path::Path, it: &Item) -> Result<String, String> {
     let mut c23: Option<String> = None;
     let mut pre_sizes = sizes(&cl);
     let mut pre_views = views(&cl);
+    let trace = std::env::var("DWMC_TRACE").is_ok();
+    let mut peak: HashMap<u64, u64> = HashMap::new();
+    let mut stale_owner_write = false;
+    let mut step_no = 0usize;
     let (ds, quiet) = cluster::run(&cl, &it.prefix, sc.ticks, 1, 20_000, |cl, ch| {
         let now = sizes(cl);
+        for (ni, (a, b)) in pre_sizes.iter().zip(now.iter()).enumerate() {
+            for seg in 1..=6u64 {
+                if b[&seg] > a[&seg] {
+                    let p = peak.entry(seg).or_insert(0);
+                    *p = (*p).max(b[&seg]);
+                    let committed_cur = pre_views[0].map(|v| v.0).unwrap_or(0);
+                    if committed_cur > seg && pre_views[ni].map(|v| v.0) == Some(seg) {
+                        stale_owner_write = true;
+                    }
+                }
+            }
+        }
+        if trace {
+            step_no += 1;
+            let sz: Vec<Vec<(u64, u64)>> = now.iter().map(|m| { let mut v: Vec<(u64, u64)> = m.iter().filter(|(_, n)| **n > 0).map(|(a, b)| (*a, *b)).collect(); v.sort(); v }).collect();
+            let (log_len, applied) = { let g = cl.raft.inner.lock().unwrap(); (g.log.len(), g.nodes.values().map(|n| n.applied).collect::<Vec<_>>()) };
+            println!("  step {:>3} {:<40} applied (segment, leader) per node {:?}  entries per node {:?}  raft log {} / applied {:?}", step_no, format!("{:?}", ch), views(cl), sz, log_len, applied);
+        }
         if c23.is_none() {
             for (ni, (a, b)) in pre_sizes.iter().zip(now.iter()).enumerate() {
                 for seg in 1..=6u64 {
@@ -134,7 +164,16 @@ pub fn run_item(dir: &std::path::Path, it: &Item) -> Result<String, String> {
         // follower applications are not held back any more
         cl.raft.apply_all();
     });
-    let mut out = RunOut { quiet, stuck_epilogue: !(q2 && q3), c23, ..Default::default() };
+    let mut out = RunOut { quiet, stuck_epilogue: !(q2 && q3), c23, stale_owner_write, ..Default::default() };
+    let entry_bytes = 256 + sc.producers.first().and_then(|p| p.1.first()).map(|s| s.len() as u64).unwrap_or(2);
+    for (seg, bytes) in peak.iter() {
+        if let Some(sealed) = cl.metas[0].sealed_count(TOPIC, *seg) {
+            if bytes / entry_bytes > sealed {
+                out.overfull.push((*seg, bytes / entry_bytes, sealed));
+            }
+        }
+    }
+    out.overfull.sort();
     out.decisions = ds.iter().map(|d| (d.options.len(), d.chosen, d.last_ready, d.desc.clone())).collect();
     for (pi, (_n, payloads)) in sc.producers.iter().enumerate() {
         let resp = parse_responses(&put_outs[pi].lock().unwrap());
@@ -215,11 +254,53 @@ pub fn scenarios(thorough: bool) -> Vec<Scenario> {
         for threshold in if thorough { vec![1u64, 2, 3, 4] } else { vec![1u64, 2] } {
             let last = nodes - 1;
             v.push(Scenario { name: format!("n{}/th{}/P3+G", nodes, threshold), nodes, threshold, producers: vec![(0, vec![p("a1"), p("a2"), p("a3")])], consumers: vec![(last, 2)], ticks: false });
+            if nodes > 1 {
+                // a sequential producer attached to a node that does not own the first segment:
+                // every PUT is forwarded on the strength of that node's (possibly lagging) metadata
+                v.push(Scenario { name: format!("n{}/th{}/P3@last+G", nodes, threshold), nodes, threshold, producers: vec![(last, vec![p("a1"), p("a2"), p("a3")])], consumers: vec![(0, 2)], ticks: false });
+            }
             v.push(Scenario { name: format!("n{}/th{}/P2+P1", nodes, threshold), nodes, threshold, producers: vec![(0, vec![p("a1"), p("a2")]), (last, vec![p("b1")])], consumers: vec![], ticks: false });
             v.push(Scenario { name: format!("n{}/th{}/P2+P2+G/ticks", nodes, threshold), nodes, threshold, producers: vec![(0, vec![p("a1"), p("a2")]), (last, vec![p("b1"), p("b2")])], consumers: vec![(0, 2)], ticks: true });
         }
     }
     v
+}
+
+/// `dwmc replay <file>`: re-executes one recorded schedule with a step-by-step trace.
+pub fn replay(path: &str) -> i32 {
+    let Ok(text) = std::fs::read_to_string(path) else { return 2 };
+    let Ok(v) = serde_json::from_str::<serde_json::Value>(&text) else { return 2 };
+    let Ok(sc) = serde_json::from_value::<Scenario>(v["scenario"].clone()) else { return 2 };
+    let prefix: Vec<usize> = serde_json::from_value(v["choice_prefix"].clone()).unwrap_or_default();
+    let prop = v["property"].as_str().unwrap_or("C22").to_string();
+    println!("property {} scenario {} deviations {}", prop, sc.name, v["deviations"]);
+    std::env::set_var("DWMC_TRACE", "1");
+    std::env::set_var("WALRUS_QUIET", "1");
+    let dir = std::env::temp_dir().join(format!("dwmc-replay-{}", std::process::id()));
+    let _ = std::fs::create_dir_all(&dir);
+    let r = run_item(&dir, &Item { sc: sc.clone(), prefix });
+    let _ = std::fs::remove_dir_all(&dir);
+    match r {
+        Err(e) => {
+            println!("machinery: {}", e);
+            2
+        }
+        Ok(o) => {
+            let ro: RunOut = serde_json::from_str(&o).unwrap_or_default();
+            println!("PUT responses {:?}\nGET responses {:?}\nfinal drain {:?}", ro.put_responses, ro.gets, ro.final_gets);
+            let verdict = if prop == "C23" { ro.c23.clone().map(|d| ("write.after.seal".to_string(), d)) } else { c22_oracle(&sc, &ro) };
+            match verdict {
+                Some((c, d)) => {
+                    println!("REPRODUCED {}: {}", c, d);
+                    1
+                }
+                None => {
+                    println!("the schedule satisfies the oracle on this tree");
+                    0
+                }
+            }
+        }
+    }
 }
 
 pub fn check(prop: &str, tier: &str) -> i32 {
@@ -271,7 +352,7 @@ pub fn check(prop: &str, tier: &str) -> i32 {
                     None => n_ok += 1,
                     Some((class, detail)) => {
                         // known findings: classified by class of symptom and by what the deviation was
-                        let kid = known_id(prop, sc, &class);
+                        let kid = known_id(prop, sc, &class, &ro);
                         match kid.and_then(|k| crate::known_open(&k, prop).map(|t| (k, t))) {
                             Some((k, _t)) => {
                                 let e = known.entry(k).or_insert((0, format!("scenario {} deviations {:?} -> {}", sc.name, sched_desc, detail)));
@@ -361,13 +442,17 @@ pub fn check(prop: &str, tier: &str) -> i32 {
 /// Known findings are matched only in scenarios with at least two concurrent producer
 /// connections (the race needs two appends in flight around a rollover); a loss or a late
 /// write with a single sequential producer is always a violation.
-fn known_id(prop: &str, sc: &Scenario, class: &str) -> Option<String> {
-    if sc.producers.len() < 2 {
-        return None;
-    }
+/// Which recorded finding, if any, explains this failing schedule. The predicates name the
+/// mechanism, not the symptom: a loss with another cause is still reported.
+fn known_id(prop: &str, sc: &Scenario, class: &str, ro: &RunOut) -> Option<String> {
     match (prop, class) {
-        ("C22", "lost") => Some("K-C22-ack-after-count".into()),
-        ("C23", "write.after.seal") => Some("K-C23-lease-check-then-act".into()),
+        // the owner of a segment appended to it on the strength of its own, lagging metadata
+        // after the cluster had committed the sealing
+        ("C22", "lost") if ro.stale_owner_write && !ro.overfull.is_empty() => Some("K-C22-stale-owner".into()),
+        // two producers: an append that passed the lease check landed behind the count that
+        // the other producer's rollover sealed
+        ("C22", "lost") if sc.producers.len() >= 2 && !ro.overfull.is_empty() => Some("K-C22-ack-after-count".into()),
+        ("C23", "write.after.seal") if sc.producers.len() >= 2 => Some("K-C23-lease-check-then-act".into()),
         _ => None,
     }
 }
